@@ -55,6 +55,8 @@ type Scenario struct {
 	// unit (crash attribution only)
 	Space string `json:"space,omitempty"`
 	Chunk int    `json:"chunk,omitempty"`
+	// rulegroup (crash attribution only): Chunk = index of the group's first list
+	Thorough bool `json:"thorough,omitempty"`
 }
 
 func direct(t string, in []byte) Scenario {
@@ -103,7 +105,7 @@ func replay(raw json.RawMessage) (bool, string) {
 	}
 	col := &collector{}
 	vrt.PoolMode = 0
-	if s.Kind != "rule" {
+	if s.Kind != "rule" && s.Kind != "rulegroup" {
 		vrt.PoolMode = 1
 	}
 	switch s.Kind {
@@ -118,6 +120,8 @@ func replay(raw json.RawMessage) (bool, string) {
 		k.eval(in)
 	case "rule":
 		replayRule(col, s.Ts, s.Multi, in)
+	case "rulegroup":
+		replayGroup(col, s.Thorough, s.Chunk, in)
 	case "unit":
 		for _, sp := range spacesFor(s.T, true) {
 			if sp.name == s.Space {
